@@ -22,6 +22,7 @@ RULE = (
     "proposal is explained by a history point among those with loss <= the batch_size-th smallest loss moved by k in "
     "+-[1, range-1] precision steps on >= 1 coordinate (0 elsewhere) then clipped to the bounds and snapped. "
     "Non-trivial = a tie at the selection boundary or an extreme loss present; distinct by (sampler, history hash, options)."
+    ' Stub variants: a subclass overriding only sample_candidates, predictions returned as list / tuple, predictions with -inf / +inf, history points outside the space; BestBatch objects are called 1-3 times (history extended by their own batch, or an unrelated shorter history).'
 )
 ASSUMPTIONS = [
     "an exception inside a third-party estimator on an extreme history is 'no batch' (counted rejected)",
